@@ -15,6 +15,8 @@ def sha(b):
 
 
 def read(p):
+    if os.path.isdir(p):
+        return None
     try:
         with open(p, "rb") as f:
             return f.read()
@@ -50,6 +52,9 @@ def scenarios(vh, relic, t):
     S.append(Scenario("d-msi", "driver", drv("msi"), "dummy.msi", "out.msi"))
     S.append(Scenario("d-rewrite-trunc", "driver", drv("rewrite-trunc"), "dummy.apk", "out.bin", expect_fail=True))
     S.append(Scenario("d-whole-nodir", "driver", drv("whole"), "hello.jar", "missing/out.bin", expect_fail=True))
+    # the commit itself fails (the output path is a directory, rename cannot replace it): handled error, no temp left
+    S.append(Scenario("d-rewrite-destdir", "driver", drv("rewrite"), "dummy.apk", "outdir.bin", expect_fail=True, setup="destdir"))
+    S.append(Scenario("d-msi-destdir", "driver", drv("msi"), "dummy.msi", "outdir.msi", expect_fail=True, setup="destdir"))
     sign = lambda extra=[]: (lambda conf, i, o: [relic, "-c", conf, "sign", "-k", "rsa2048", "-f", i, "-o", o] + extra)
     ver = lambda p: relicenv.verify(relic, p)[0]
     S.append(Scenario("b-jar", "binary", sign(), "hello.jar", "out.jar", verify=ver))
@@ -90,7 +95,9 @@ class Env:
         else:
             self.dest = os.path.join(self.dir, sc.dest_name)
             self.old = None
-            if dest_existed and os.path.isdir(os.path.dirname(self.dest)):
+            if sc.setup == "destdir":
+                os.makedirs(os.path.join(self.dest, "keep"))
+            elif dest_existed and os.path.isdir(os.path.dirname(self.dest)):
                 self.old = OLD
                 with open(self.dest, "wb") as f:
                     f.write(OLD)
